@@ -115,6 +115,20 @@ example : let s : St := { role := .controlled, state := .checking, remotes := []
   decide
 
 
+/-- the other consumer of STUN responses in the anchored code, `probe_stun` (server-reflexive gathering):
+it takes a mapped address only from a Binding *success* response carrying the probe's own transaction id
+(holds since the `fix:` commit; before, any decodable datagram from the server's IP with an
+XOR-MAPPED-ADDRESS was taken). -/
+theorem probe_needs_own_transaction (tx resp : Bytes) (a : Addr) (h : probeAccept tx resp = some a) :
+    ∃ d, decode resp = .ok d ∧ d.tx = tx ∧ d.cls = .success ∧ d.method = .binding ∧ d.mapped = some a := by
+  unfold probeAccept at h
+  split at h
+  · rename_i d hd
+    split at h
+    · rename_i hc; exact ⟨d, hd, hc.1, hc.2.1, hc.2.2, h⟩
+    · simp at h
+  · simp at h
+
 /-! ### requests -/
 
 /-- **unauth_request_inert** (abstract step): in WebRTC mode a request the credential check does not
